@@ -323,6 +323,11 @@ def gen_op(r, depth):
         c["name"] = r.choice(["decl", "", "a.b::c", " decl\n", "ƒ", "main"])
     if k == "ExtOp":
         c["desc"] = r.choice(["", "def description"])
+        # how the definition declares its signature: computed ("binary"), or a monomorphic type scheme -- then the
+        # operation carries its own signature (the same rows, possibly with further requirements) or none at all
+        c["defsig"] = r.choice(["binary", "binary", "mono+own", "mono+own-reqs", "mono"])
+        if c["defsig"] != "binary":
+            c["args"] = []
     return c
 
 
@@ -392,9 +397,16 @@ def build_op(c, B):
                           [B.arg(a) for a in c["args"]])
     if k == "ExtOp":
         e = ext.Extension("gen.ext", ext.Version(1, 0, 0))
-        od = e.add_op_def(ext.OpDef("gop", ext.OpDefSig(None, binary=True), c["desc"]))
-        return od.instantiate([B.arg(a) for a in c["args"]],
-                              tys.FunctionType(row(c["ins"]), row(c["outs"])))
+        how = c.get("defsig", "binary")
+        if how == "binary":
+            od = e.add_op_def(ext.OpDef("gop", ext.OpDefSig(None, binary=True), c["desc"]))
+            return od.instantiate([B.arg(a) for a in c["args"]],
+                                  tys.FunctionType(row(c["ins"]), row(c["outs"])))
+        od = e.add_op_def(ext.OpDef("gop", ext.OpDefSig(tys.FunctionType(row(c["ins"]), row(c["outs"])), binary=False),
+                                    c["desc"]))
+        own = {"mono": None, "mono+own": tys.FunctionType(row(c["ins"]), row(c["outs"])),
+               "mono+own-reqs": tys.FunctionType(row(c["ins"]), row(c["outs"]), ["prelude", "z.ext"])}[how]
+        return od.instantiate([], own)
     raise AssertionError(k)
 
 
@@ -502,8 +514,9 @@ def wire_op(c):
         # an operation backed by a definition is written as hugr-core's ExtensionOp::make_opaque writes it: extension
         # and name of the definition, the cached signature, the type arguments and the DEFINITION's description
         # (a definition held by an extension names that extension among its requirements, cf. C10)
+        reqs = ["gen.ext", "prelude", "z.ext"] if c.get("defsig") == "mono+own-reqs" else ["gen.ext"]
         return {"op": "Extension", "extension": "gen.ext", "name": "gop",
-                "signature": fn(c["ins"], c["outs"], ["gen.ext"]),
+                "signature": fn(c["ins"], c["outs"], reqs),
                 "description": c["desc"], "args": [wire_arg(a) for a in c["args"]]}
     return None
 
